@@ -354,8 +354,9 @@ def run(ck: Check):
                           "Python int &, >>, <<, | modelled in arithmetic normal form (compared on every case by the correspondence)")
     ck.notes.append("35c/35ms/35mi with A>5 and the ODEX-only classes are outside the specification: length and round trip only; "
                     "45cc/4rcc get_operands() returns None upstream (unimplemented), their fields are compared as attributes")
-    ck.partial.append("fields_spec covers the 30 specification formats; ODEX-only classes (3rms/3rmi/5rc drop the last register, "
-                      "41c/40sc/52c) are covered by length/round-trip theorems and the correspondence only")
+    ck.partial.append("fields_spec covers all 26 specification formats (35c under A<=5: the specification defines no register "
+                      "list for A>5, see fields_spec_35c_needs_count); ODEX-only classes (3rms/3rmi/5rc drop the last register, "
+                      "41c/40sc/52c, 20bc, 22cs, 35ms/35mi) are covered by length/round-trip theorems and the correspondence only")
 
 
 def replay(ck: Check, rp):
